@@ -197,6 +197,25 @@ fn real_path(path: &Path, follow: bool) -> Result<Option<PathBuf>> {
     }
 }
 
+// Where `path` is going to be: as real_path(), with the part of it
+// that does not exist yet appended as it is spelled.
+fn real_place(path: &Path) -> Result<PathBuf> {
+    let mut missing = Vec::new();
+    let mut known = path.to_path_buf();
+    loop {
+        if let Some(real) = real_path(&known, true)? {
+            return Ok(missing.iter().rev().fold(real, |p, name| p.join(name)));
+        }
+        match (known.parent(), known.file_name()) {
+            (Some(parent), Some(name)) => {
+                missing.push(name.to_os_string());
+                known = if parent.as_os_str().is_empty() { PathBuf::from(".") } else { parent.to_path_buf() };
+            }
+            _ => return Ok(path.to_path_buf()),
+        }
+    }
+}
+
 fn opts_check(opts: &Opts) -> Result<()> {
     #[cfg(any(target_os = "linux", target_os = "android"))]
     if opts.reflink == Reflink::Never {
@@ -300,11 +319,21 @@ fn main() -> Result<()> {
             real_targets.push(real_target);
         }
     }
-    for source in &sources {
+    for (source, target) in sources.iter().zip(&targets) {
         let real_source = match real_path(source, opts.dereference)? {
             Some(p) => p,
             None => continue,
         };
+        // Nor may the place a directory is copied to lie inside that
+        // directory: the walk would go down into its own output until
+        // the paths become too long. (With --gitignore that place may
+        // be excluded from the walk; that is left to the walk.)
+        if !opts.gitignore && is_dir(source)? {
+            let place = real_place(target)?;
+            if place != real_source && place.starts_with(&real_source) {
+                return Err(XcpError::InvalidSource("Cannot copy a directory into itself").into());
+            }
+        }
         for real_target in &real_targets {
             if real_source != *real_target && real_source.starts_with(real_target) {
                 return Err(XcpError::InvalidSource("A source lies inside a directory the copy writes onto").into());
